@@ -489,7 +489,11 @@ func (m *model) applyBlocks(blocks []rtcp.ReceptionReport, ts []int64, hyp int, 
 		}
 		m.riLost = exactly(losts...)
 		m.riFrac = exactly(float64(b.FractionLost) / 256)
-		m.riJit = exactly(float64(b.Jitter) / m.clockRate)
+		if m.clockRate == 0 {
+			m.riJit = allow{any: true} // seconds of jitter are undefined without a clock rate
+		} else {
+			m.riJit = exactly(float64(b.Jitter) / m.clockRate)
+		}
 		// packets received by the remote = expected - lost, expected = extended highest
 		// - first sequence number sent + 1, floored at 0 (the field is unsigned).
 		if !m.firstOwnHave {
@@ -1109,7 +1113,7 @@ func (w *world) query(pre map[*stream]*model, pkts []rtcp.Packet, ts []int64) {
 					got, m.inHighest, m.inFirst, m.inCount, want)
 			}
 		}
-		if j := st.InboundRTPStreamStats.Jitter; math.IsNaN(j) || math.IsInf(j, 0) || j < 0 {
+		if j := st.InboundRTPStreamStats.Jitter; s.clockRate != 0 && (math.IsNaN(j) || math.IsInf(j, 0) || j < 0) {
 			w.violation(s, "rtp-in/jitter-not-finite", "Inbound.Jitter=%v", j)
 		}
 		// RTCP-fed figures
@@ -2009,7 +2013,7 @@ func scenario(c *vf.Case) {
 	}
 	nOps := r.Range(60, 150)
 	for i := 0; i < ns; i++ {
-		s := &stream{ssrc: newSSRC(), clockRate: uint32(r.Pick(8000, 48000, 90000, 90000, 1, 16000)), pt: uint8(r.Intn(128))}
+		s := &stream{ssrc: newSSRC(), clockRate: uint32(r.Pick(8000, 48000, 90000, 90000, 1, 16000, 90000, 0)), pt: uint8(r.Intn(128))}
 		switch r.Intn(4) {
 		case 0:
 			s.local = true
